@@ -3,7 +3,7 @@
 EXTENDS KChunks, KText, Json, IOUtils
 VARIABLES text, n
 Tier == IOEnv.KV_TIER
-MaxLen == IF Tier = "thorough" THEN 8 ELSE 6
+MaxLen == IF Tier = "thorough" THEN 7 ELSE 6
 Alphabet == {"a", " ", LFb, "r", "L", "c", "F"}
 RECURSIVE Strings(_)
 Strings(k) == IF k = 0 THEN {<<>>} ELSE LET S == Strings(k - 1) IN S \cup {Append(s, b) : s \in {x \in S : Len(x) = k - 1}, b \in Alphabet}
